@@ -242,6 +242,28 @@ Proof.
   subst. reflexivity.
 Qed.
 
+(* ---- on a nonsingular band no padding slot influences the solution: two matrices that agree on every
+   in-matrix slot get the same answer (an equation between two runs of the solver) ---- *)
+Theorem band_solve_padding_independent : forall (A : Arith), FieldLaws A -> PivotLaws A ->
+  forall (B : banded A) (b : list A),
+  wfB B -> length b = bn B -> bm1 B <= bn B -> trivial_kernel B ->
+  forall B', same_in_matrix_slots B B' -> band_solve B' b = band_solve B b.
+Proof. intros A FL PL B b. exact (band_solve_padding_lemma FL PL B b). Qed.
+Check band_solve_padding_independent : forall (A : Arith), FieldLaws A -> PivotLaws A ->
+  forall (B : banded A) (b : list A),
+  wfB B -> length b = bn B -> bm1 B <= bn B -> trivial_kernel B ->
+  forall B', same_in_matrix_slots B B' -> band_solve B' b = band_solve B b.
+Print Assumptions band_solve_padding_independent.
+Definition ex_K' : banded AQ :=
+  @mkB AQ 2 1 1 (@mkM AQ [q 0 1; q 0 1; q 1 1;   q 1 1; q 5 1; q 1000 1] 2 3).
+Example band_solve_padding_independent_nonvacuous :
+  same_in_matrix_slots ex_K ex_K' /\ compact ex_K' <> compact ex_K.
+Proof.
+  split; [|intros E; discriminate E]. split; [repeat split|]. repeat split.
+  intros i j Hi Hj. cbn in Hi, Hj.
+  destruct i as [|[|i]]; try lia; destruct j as [|[|j]]; try lia; intros Hb; try discriminate Hb; vm_compute; reflexivity.
+Qed.
+
 (* ---- determinant (partial).  Full statement planned in DESIGN: band_det B = determinant (dense B).  Proved:
    band_det always answers; it is (+-1) * the product of the pivots of the factorisation band_solve uses, so
    (i) a nonzero determinant makes the solver answer exactly for every right-hand side, and (ii) on a
